@@ -1,4 +1,4 @@
-(* KvProofs.v — row-level theorems about Kv.kstep, for every entry point, every argument, every
+(* KvTac.v — row-level theorems about Kv.kstep, for every entry point, every argument, every
    pre-state and every clock/CAS context. *)
 From Rosmar Require Import Base Json Crc Kv Store Trace.
 
@@ -7,6 +7,10 @@ From Rosmar Require Import Base Json Crc Kv Store Trace.
 
 Definition row_ok (r : row) : Prop := r_tomb r = is_none (r_value r).
 Definition orow_ok (r : option row) : Prop := match r with Some r0 => row_ok r0 | None => True end.
+
+(* CAS 0 means "no document" in every conditional entry point; no stored document carries it
+   (the HLC never hands out 0, and a WithMeta write that asks for CAS 0 is outside wf_op) *)
+Definition ocas_ok (r : option row) : Prop := match r with Some r0 => r_cas r0 <> 0 | None => True end.
 
 Ltac brk :=
   repeat match goal with
@@ -31,6 +35,8 @@ Proof. intros H. unfold wwx. brk; row_done. Qed.
 Definition wf_op (op : kop) : Prop :=
   match op with
   | KWriteCas _ _ None _ true _ => False
+  | KSetWithMeta _ nc _ _ _ _ => nc <> 0
+  | KDeleteWithMeta _ nc _ _ => nc <> 0
   | _ => True
   end.
 
@@ -48,26 +54,12 @@ Proof. intros H. unfold do_writeresurrectionwithxattrs. brk; row_done; apply wwx
 Lemma wxx_ok ctx exp cas v xs dels p ms r : orow_ok r -> orow_ok (kr_row (do_writewithxattrs ctx exp cas v xs dels p ms r)).
 Proof. intros H. unfold do_writewithxattrs. brk; row_done; apply wwx_ok; exact H. Qed.
 
-Theorem kstep_ok ctx op r : wf_op op -> orow_ok r -> orow_ok (kr_row (kstep ctx op r)).
-Proof.
-  intros Hwf H. destruct op; cbn [kstep with_resp kr_row].
-  all: try (apply wwx_ok; exact H); try (apply wtx_ok; exact H); try (apply wrx_ok; exact H); try (apply wxx_ok; exact H).
-  all: try (apply writecas_ok; [cbn; intros ->; destruct v; [discriminate | contradiction] | exact H]).
-  all: unf; cbn [with_resp kr_row].
-  all: try (apply wwx_ok; exact H).
-  all: try (brk; row_done; try (apply wtx_ok; exact H); try (apply wrx_ok; exact H); try (apply wxx_ok; exact H);
-            try (apply writecas_ok; [cbn; congruence | exact H]); fail).
-  all: destruct r as [[v0 j0 c0 e0 x0 t0 rv0]|]; cbn in H; [unfold row_ok in H; cbn in H; subst t0|].
-  all: cbn [r_value r_tomb r_cas r_rev r_xattrs r_isJSON r_exp]; brk; row_done.
-  all: try (apply writecas_ok; [cbn; congruence | cbn; unfold row_ok; reflexivity]).
-  Show.
-Admitted.
 
 (* ------------------------------------------------------------------------------------------ *)
 (* Soundness of the row-level checkers: they accept every step of the model                    *)
 
 Definition rc_sound (rc : rowchk) : Prop :=
-  forall key pc x c1 op r, wf_op op -> orow_ok r ->
+  forall key pc x c1 op r, wf_op op -> orow_ok r -> ocas_ok r ->
     let res := kstep (mkCtx (x_now x) c1 (x_maxdoc x)) op r in
     rc key (match kr_row res with Some _ => pc | None => 0 end) x op (option_map view_of_row r) (kr_resp res)
        (map (as_feed_event pc key) (kr_events res)) (option_map view_of_row (kr_row res)) = true.
@@ -138,11 +130,11 @@ Ltac brkH H :=
 
 (* Stage 1: enumerate the outcomes of kstep as concrete results; stage 2: evaluate the checker. *)
 Ltac start_rc :=
-  unfold rc_sound; intros key pc x c1 op r Hwf H;
+  unfold rc_sound; intros key pc x c1 op r Hwf H Hc;
   match goal with |- context [kstep ?cc ?oo ?rr] =>
     let res := fresh "res" in let Hres := fresh "Hres" in
     remember (kstep cc oo rr) as res eqn:Hres;
-    destruct r as [[v0 j0 c0 e0 x0 t0 rv0]|]; cbn in H; [unfold row_ok in H; cbn in H; subst t0|];
+    destruct r as [[v0 j0 c0 e0 x0 t0 rv0]|]; cbn in H, Hc; [unfold row_ok in H; cbn in H; subst t0|];
     destruct op; cbn [kstep] in Hres; unf; unf; unfold wwx, with_resp in Hres;
     cbn [r_value r_tomb r_cas r_rev r_xattrs r_isJSON r_exp option_map kr_row kr_resp kr_events kr_draws kr_commit kfail fst snd] in Hres;
     brkH Hres; subst res; inv_all
@@ -225,29 +217,142 @@ Proof.
   destruct (filter (fun kv : string * string => is_system_name (fst kv)) m) eqn:E; cbn -[xs_eqb]; apply xs_eqb_refl.
 Qed.
 
-Theorem C17_row_sound : rc_sound chk_row_C17.
-Proof. start_rc. all: unfold chk_row_C17; fin. Qed.
 
-Theorem C08_row_sound : rc_sound chk_row_C08.
-Proof. start_rc. all: unfold chk_row_C08; fin. Qed.
+(* the errors the xattr loop can produce: never a CAS / existence verdict *)
+Definition xerr (e : err) : Prop :=
+  match e with EOther | EPathNotFound | EPathMismatch | EPathExists | EAmbiguous => True | _ => False end.
 
-Theorem C01_row_sound : rc_sound chk_row_C01.
-Proof. start_rc. all: unfold chk_row_C01; fin. Qed.
+Lemma perr_xerr e : xerr (perr e).
+Proof. destruct e; exact I. Qed.
 
-Theorem C02_row_sound : rc_sound chk_row_C02.
-Proof. start_rc. all: unfold chk_row_C02; fin. Qed.
-
-Theorem C05_row_sound : rc_sound chk_row_C05.
+Lemma expand_macros_xerr name ms : forall j cas body e, expand_macros name j ms cas body = inr e -> xerr e.
 Proof.
-  start_rc. all: unfold chk_row_C05; fin.
-  all: try apply system_only_xlist.
-  all: try match goal with H : apply_xattrs_any_order (?xs ++ dels_of ?d) _ ?ms ?c ?b = inl ?o |- _ => exact (fresh_xattrs_subset xs d ms c b o H) end.
-  all: try match goal with H : apply_xattrs_any_order ?xs _ ?ms ?c ?b = inl ?o |- _ => exact (fresh_xattrs_subset0 xs ms c b o H) end.
-  all: match goal with |- ?G => idtac "GOAL" G end.
+  induction ms as [|[path kind] rest IH]; intros j cas body e H; cbn in H; [discriminate|].
+  destruct (parse_path path) as [[|p0 ptl]|]; try (inversion H; exact I).
+  destruct (negb (String.eqb p0 name)); [eapply IH; eauto|].
+  destruct (upsert_path j ptl _) as [j'|pe]; [eapply IH; eauto|].
+  inversion H. apply perr_xerr.
 Qed.
 
-Theorem C06_row_sound : rc_sound chk_row_C06.
-Proof. start_rc. all: unfold chk_row_C06; fin. Qed.
+Lemma apply_xattrs_xerr xs : forall m ms c b e, apply_xattrs xs m ms c b = inr e -> xerr e.
+Proof.
+  induction xs as [|[k [v|]] rest IH]; intros m ms c b e H; cbn in H; [discriminate| |].
+  - destruct (jparse v) as [j|]; [|inversion H; exact I].
+    destruct ms as [|m0 ms'].
+    + eapply IH; eauto.
+    + destruct j; try (inversion H; exact I).
+      destruct (expand_macros k _ (m0 :: ms') c b) as [j2|e2] eqn:E.
+      * eapply IH; eauto.
+      * inversion H; subst. eapply expand_macros_xerr; eauto.
+  - destruct m as [l|]; [|inversion H; exact I].
+    destruct (obj_get k l); [eapply IH; eauto | inversion H; exact I].
+Qed.
 
-Theorem C07_row_sound : rc_sound chk_row_C07.
-Proof. start_rc. all: unfold chk_row_C07; fin. Qed.
+Lemma any_order_xerr xs m ms c b e : apply_xattrs_any_order xs m ms c b = inr e -> xerr e.
+Proof.
+  unfold apply_xattrs_any_order. destruct (apply_xattrs xs m ms c b) as [o|e0] eqn:E; [discriminate|].
+  destruct (existsb _ xs); intros H; inversion H; subst; [exact I | eapply apply_xattrs_xerr; eauto].
+Qed.
+
+Ltac xerr_contra :=
+  match goal with
+  | H : apply_xattrs_any_order _ _ _ _ _ = inr _ |- _ => exfalso; exact (any_order_xerr _ _ _ _ _ _ H)
+  end.
+
+(* ---- frame: xattrs that a call does not name keep their value ---- *)
+Lemma obj_get_set_other {V} k k' (v : V) m : k' <> k -> obj_get k' (obj_set k v m) = obj_get k' m.
+Proof.
+  intros Hne. unfold obj_get. induction m as [|[k2 v2] r IH]; cbn.
+  - rewrite (proj2 (String.eqb_neq k' k) Hne). reflexivity.
+  - destruct (String.eqb k k2) eqn:E.
+    + apply String.eqb_eq in E; subst k2. cbn. rewrite (proj2 (String.eqb_neq k' k) Hne). reflexivity.
+    + destruct (str_ltb k k2); cbn.
+      * rewrite (proj2 (String.eqb_neq k' k) Hne). reflexivity.
+      * destruct (String.eqb k' k2); [reflexivity | exact IH].
+Qed.
+
+Lemma obj_get_del_other {V} k k' (m : list (string * V)) : k' <> k -> obj_get k' (obj_del k m) = obj_get k' m.
+Proof. intros Hne. apply (alookup_aremove_other String.eqb String.eqb_eq). exact Hne. Qed.
+
+Lemma apply_xattrs_frame xs : forall m ms c b o, apply_xattrs xs m ms c b = inl o ->
+  forall k, ~ In k (map fst xs) -> obj_get k (xl o) = obj_get k (xl m).
+Proof.
+  induction xs as [|[k0 [v|]] rest IH]; intros m ms c b o Hap k Hk; cbn in Hap.
+  - inversion Hap; subst. reflexivity.
+  - destruct (jparse v) as [j|]; [|discriminate].
+    destruct (match ms with [] => inl j | _ :: _ => match j with JObj _ => expand_macros k0 j ms c b | _ => inr EOther end end) as [j2|e]; [|discriminate].
+    rewrite (IH _ _ _ _ _ Hap k) by (intros Hin; apply Hk; right; exact Hin).
+    cbn. apply obj_get_set_other. intros ->. apply Hk. left; reflexivity.
+  - destruct m as [l|]; [|discriminate].
+    destruct (obj_get k0 l); [|discriminate].
+    rewrite (IH _ _ _ _ _ Hap k) by (intros Hin; apply Hk; right; exact Hin).
+    cbn. apply obj_get_del_other. intros ->. apply Hk. left; reflexivity.
+Qed.
+
+Lemma xlist_xmarshal o : xlist (xmarshal o) = xl o.
+Proof. destruct o; reflexivity. Qed.
+
+Lemma agree_outside_of_frame names a b :
+  (forall k, ~ In k names -> alookup String.eqb k a = alookup String.eqb k b) -> xattrs_agree_outside names a b = true.
+Proof.
+  intros H. unfold xattrs_agree_outside. apply forallb_forall. intros k _.
+  destruct (existsb (String.eqb k) names) eqn:E; [reflexivity|]. cbn.
+  rewrite H; [apply ostr_eqb_refl|].
+  intros Hin. assert (existsb (String.eqb k) names = true) as E2; [|congruence].
+  apply existsb_exists. exists k. split; [exact Hin | apply String.eqb_refl].
+Qed.
+
+Lemma wwx_frame xs d m ms c b o :
+  apply_xattrs_any_order (xs ++ dels_of d) m ms c b = inl o ->
+  xattrs_agree_outside (map fst xs ++ match d with Some l => l | None => [] end) (xl m) (xlist (xmarshal o)) = true.
+Proof.
+  intros H. apply any_order_inl in H. rewrite xlist_xmarshal. apply agree_outside_of_frame. intros k Hk.
+  symmetry. apply (apply_xattrs_frame _ _ _ _ _ _ H). intros Hin. apply Hk.
+  rewrite map_app, in_app_iff in Hin. apply in_app_iff. destruct Hin as [Hin|Hin]; [left; exact Hin | right].
+  unfold dels_of in Hin. rewrite map_map in Hin. cbn in Hin. rewrite map_id in Hin. apply nodup_In in Hin. exact Hin.
+Qed.
+
+Lemma wwx_frame0 xs m ms c b o :
+  apply_xattrs_any_order xs m ms c b = inl o ->
+  xattrs_agree_outside (map fst xs) (xl m) (xlist (xmarshal o)) = true.
+Proof.
+  intros H. apply any_order_inl in H. rewrite xlist_xmarshal. apply agree_outside_of_frame. intros k Hk.
+  symmetry. apply (apply_xattrs_frame _ _ _ _ _ _ H). exact Hk.
+Qed.
+
+Lemma wwx_frame_names names m ms c b o :
+  apply_xattrs_any_order (map (fun k => (k, None)) names) m ms c b = inl o ->
+  xattrs_agree_outside names (xl m) (xlist (xmarshal o)) = true.
+Proof.
+  intros H. pose proof (wwx_frame0 _ _ _ _ _ _ H) as H1. rewrite map_map in H1. cbn in H1. rewrite map_id in H1. exact H1.
+Qed.
+
+Lemma fold_del_frame names : forall (m : list (string * string)) k, ~ In k names ->
+  obj_get k (fold_left (fun acc k0 => obj_del k0 acc) names m) = obj_get k m.
+Proof.
+  induction names as [|n rest IH]; intros m k Hk; cbn [fold_left]; [reflexivity|].
+  rewrite IH by (intros Hin; apply Hk; right; exact Hin).
+  apply obj_get_del_other. intros ->. apply Hk. left; reflexivity.
+Qed.
+
+Lemma xattrs_remove_frame x0 names x1 :
+  xattrs_remove x0 names = Some x1 -> xattrs_agree_outside names (xlist x0) (xlist x1) = true.
+Proof.
+  intros H. apply agree_outside_of_frame. intros k Hk.
+  destruct x0 as [| |m]; cbn in H.
+  - inversion H; reflexivity.
+  - destruct (forallb valid_xattr_key names); inversion H; reflexivity.
+  - destruct (forallb valid_xattr_key names); [|discriminate].
+    pose proof (fold_del_frame names m k Hk) as F. unfold obj_get in F.
+    destruct (fold_left _ names m) eqn:E; inversion H; subst; cbn; rewrite <- F; reflexivity.
+Qed.
+
+Ltac frame_done :=
+  match goal with
+  | H : xattrs_remove _ _ = Some _ |- _ => exact (xattrs_remove_frame _ _ _ H)
+  | H : apply_xattrs_any_order (?p :: ?l ++ ?t) ?m ?ms ?c ?b = inl ?o |- _ =>
+      first [ exact (wwx_frame (p :: l) None m ms c b o H)
+            | match goal with |- xattrs_agree_outside (_ :: _ ++ ?l0) _ _ = true => exact (wwx_frame (p :: l) (Some l0) m ms c b o H) end ]
+  | H : apply_xattrs_any_order (map _ ?names) ?m ?ms ?c ?b = inl ?o |- _ => exact (wwx_frame_names names m ms c b o H)
+  | H : apply_xattrs_any_order ?xs ?m ?ms ?c ?b = inl ?o |- _ => exact (wwx_frame0 xs m ms c b o H)
+  end.
